@@ -298,6 +298,11 @@ def handmade(u):
         # registered 0.4 ms before its original deadline (the schedule position makes this add a late one)
         [R('s_no', 1), T, T, T, A('h1', 's_no', 1, 4), T, T, T],
         [R('s_nc', 0), T, A('h1', 's_nc', 1, 2), T, T, T],
+        # a hold-time handler removed by an untimed handler's callback during the dispatch of the very change that arms it
+        [A('h1', 's_no', 1, 0), A('h2', 's_no', 1, 2), R('s_no', 1), {'op': 'call', 'id': 'h1'},
+         {'op': 'remove', 'id': 'h2', 'nested': True}, T, T, T],
+        [A('h1', 's_nc', 0, 0), A('h2', 's_nc', 0, 1), A('h3', 's_nc', 0, 2), R('s_nc', 1), {'op': 'call', 'id': 'h1'},
+         {'op': 'remove', 'id': 'h3', 'nested': True}, T, T, T],
         # a muted switch: its change is mirrored and voids the pending hold-time entry, no handler is called
         [A('h1', 's_no', 1, 3), A('h2', 's_no', 0, 0), R('s_no', 1), T, M('s_no', True), R('s_no', 0), T, T, T, M('s_no', False), T],
         [A('h1', 's_no', 1, 2), M('s_no', True), R('s_no', 1), T, T, T, M('s_no', False), R('s_no', 0), R('s_no', 1), T, T, T],
@@ -325,7 +330,7 @@ def run(ctx):
         behs, _ = tlc.simulate(wd, 'SwitchesMC', 'Gen.cfg', num=per_unit, depth=30 if ctx.quick else 44,
                                seed=ctx.seed + u)
         jobs = [([s['act'] for s in b], u, k % 3 == 0, k % 2 == 1) for k, b in enumerate(behs)]
-        jobs += [(s, u, False, False) for s in handmade(u)] + [(s, u, True, True) for s in handmade(u)]
+        jobs += [(s, u, pr, sh) for s in handmade(u) for (pr, sh) in ((False, False), (True, True), (False, True), (True, False))]
         traces = harness.pmap(exec_schedule, jobs, chunk=8)
         with open(wd + '/Trace.cfg', 'w') as f:
             f.write(cfg_text('TSpec', hu, 10 ** 6, 10 ** 6, TRACE_HIDS, '{}', trace=True))
